@@ -5,6 +5,11 @@ M  : spec/EvmFrames.tla over every program tree of a tiny library: ValueConserve
 G1 : the same run prints every program with the world the model predicts (a seeded sample is replayed in the quick tier).
 G2 : `tlc -simulate` over the rich alphabet (three contracts, CALL/CALLCODE/DELEGATECALL/STATICCALL/CREATE/CREATE2,
      SELFDESTRUCT to every kind of beneficiary, starved calls, depth 3).
+G3 : gas-allotment sweeps: hand-written nested programs (executed by the model for their predictions) and generated programs
+     with creations / value calls into storing code are first run with ample gas; from the measured consumption of a frame
+     (for creations: init code and code deposit separately) the driver derives boundary allotments (used-1, used, used+1,
+     init-1, init, init+1, inside the deposit window, 0, 1, 2, 2300, 2301, 5000, random points) and re-runs the program with
+     the gas forwarded to that frame set to each of them.
 T  : the driver `evmframes` compiles each program to bytecode, deploys it into a real StateDB (first transaction on a
      reopened state, and second transaction after another one and Finalise), runs it with the real EVM and a tracer;
      spec/EvmFrames_Mon.tla judges the recorded run.
@@ -37,6 +42,67 @@ NEXT MonStep
 CONSTRAINT Done
 CHECK_DEADLOCK FALSE
 """
+
+GIVEN_CFG = """INIT InitGiven
+NEXT Next
+CONSTANTS
+  Contracts = {"A", "B", "C"}
+  Plain = {"E", "N"}
+  MaxDepth = 4
+  MaxOps = 4
+  MaxTokens = 24
+  Alphabet = "rich"
+  MaxLvl = 5
+  GenMode = "leaf"
+INVARIANTS TypeOK ValueConserved NonNegative StaticChangesNothing LogsFromLiveFrames
+PROPERTY FailedFrameLeavesNoTrace
+CONSTRAINT Leaf
+CHECK_DEADLOCK FALSE
+"""
+
+
+def C(kind, to, val=0, gas="all"):
+    return {"t": "CALL", "kind": kind, "to": to, "val": val, "gas": gas}
+
+
+def K(kind, val=0):
+    return {"t": "CREATE", "kind": kind, "val": val}
+
+
+def S(slot, val):
+    return {"t": "SSTORE", "slot": slot, "val": val}
+
+
+def E(how, ben=None):
+    return {"t": "END", "how": how, "ben": ben} if ben else {"t": "END", "how": how}
+
+
+L = {"t": "LOG"}
+
+
+def X(to, val):
+    return {"t": "XFER", "to": to, "val": val}
+
+
+# nested shapes for the gas sweeps: factories creating contracts whose init code stores, logs and receives an endowment;
+# value calls to contracts that store and may run out; creations in the transaction's own frame, under DELEGATECALL /
+# CALLCODE, after a reverted sibling, with init code that stops / self-destructs instead of returning code
+GIVEN = [
+    [C("CALL", "A", 1), C("CALL", "B"), K("CREATE2", 1), S(1, 1), L, E("RETURN"), E("STOP"), E("STOP")],
+    [C("CALL", "A", 1), C("CALL", "B"), K("CREATE", 1), S(1, 1), L, E("RETURN"), E("STOP"), E("STOP")],
+    [C("CALL", "A"), K("CREATE", 1), S(1, 1), L, E("RETURN"), S(2, 2), E("STOP")],
+    [C("CALL", "A"), K("CREATE2", 1), S(1, 2), L, E("RETURN"), S(2, 2), E("RETURN")],
+    [C("CALL", "A"), C("CALL", "B", 1), S(1, 1), S(2, 2), L, E("STOP"), S(1, 2), E("STOP")],
+    [C("CALL", "A"), S(1, 1), C("CALL", "B", 1), S(1, 1), C("CALL", "C", 1), S(2, 1), L, E("STOP"), E("STOP"), L, E("STOP")],
+    [C("CALL", "A"), C("DELEGATECALL", "B"), K("CREATE2", 0), L, S(2, 1), E("RETURN"), S(1, 1), E("STOP"), E("RETURN")],
+    [C("CALL", "B", 1), C("CALLCODE", "C", 1), S(1, 1), K("CREATE", 1), S(1, 2), E("RETURN"), E("STOP"), L, E("STOP")],
+    [C("CALL", "A"), C("CALL", "B"), C("CALL", "C", 1), S(1, 1), E("REVERT"), K("CREATE", 0), S(1, 2), L, E("RETURN"), E("STOP"), L, E("STOP")],
+    [C("CALL", "A"), C("CALL", "B"), K("CREATE2", 1), S(1, 1), X("E", 1), E("STOP"), K("CREATE", 0), L, E("SELFDESTRUCT", "E"), E("STOP"), E("STOP")],
+    [C("CALL", "C", 1), C("STATICCALL", "A"), C("CALL", "B"), E("STOP"), E("STOP"), K("CREATE2", 1), C("CALL", "B"), S(1, 1), E("STOP"), S(2, 2), E("RETURN"), E("STOP")],
+    [C("CALL", "A", 1), C("CALL", "B", 1), K("CREATE", 1), L, K("CREATE2", 1), S(1, 1), E("RETURN"), E("RETURN"), L, E("STOP"), S(1, 1), E("STOP")],
+    [C("CALL", "A"), C("CALL", "B", 0), S(1, 1), E("INVALID"), C("CALL", "B", 1), S(1, 2), L, E("STOP"), E("STOP")],
+    [C("CALL", "A"), K("CREATE", 1), C("CALL", "B", 0), S(1, 1), E("STOP"), S(1, 1), E("RETURN"), X("N", 1), E("STOP")],
+]
 
 FAIL_VARIANTS = ["INVALID", "UNDEFINED", "UNDERFLOW", "BADJUMP"]
 OOG_VARIANTS = ["OOG", "OOGCOPY"]
@@ -101,6 +167,16 @@ def generate(ctx):
         sim = behaviours_of(g2)
         rng.shuffle(sim)
         behs += sim[:(1200 if quick else 15000)]
+    # hand-written nested programs, executed by the model for their predictions
+    gv = ctx.tlc_must("EvmFrames", GIVEN_CFG, name="G_given", timeout=600, count=False,
+                      files={"given.ndjson": "\n".join(json.dumps({"prog": p}) for p in GIVEN) + "\n"})
+    if gv.violated:
+        raise vlib.Undecided("EvmFrames design model violates %s on a hand-written program (%s)" % (gv.violated, gv.dir))
+    given = behaviours_of(gv)
+    if len({key(b) for b in given}) != len(GIVEN):
+        raise vlib.Undecided("the model executed %d of %d hand-written programs (%s)" % (len(given), len(GIVEN), gv.dir))
+    behs = behs[:nw] + given + behs[nw:]
+    ngiven = len(given)
     # distinct programs only; alternate the set-up; vary the concrete form of failing endings
     seen = set()
     out = []
@@ -113,15 +189,35 @@ def generate(ctx):
     for i, b in enumerate(out):
         if "setup" not in b:
             b["setup"] = "second" if i % 2 else "fresh"
-        if i >= nw and rng.random() < 0.5:
+        if i >= nw + ngiven and rng.random() < 0.5:
             for t in b["prog"]:
                 if t["t"] == "END" and t["how"] == "INVALID":
                     t["v"] = rng.choice(FAIL_VARIANTS)
                 elif t["t"] == "END" and t["how"] == "OOG":
                     t["v"] = rng.choice(OOG_VARIANTS)
-    ctx.note("programs: %d witnesses, %d of %d bounded-exhaustive (tiny library), %d simulated; %d distinct" %
-             (nw, n1 - nw, len(g1), len(behs) - n1, len(out)))
+    # gas sweeps: the hand-written programs, and generated programs with a creation or a value call into storing code
+    def sweepable(b):
+        toks = b["prog"]
+        return (any(t["t"] == "CREATE" for t in toks) or
+                (any(t["t"] == "CALL" and t.get("val") == 1 for t in toks[1:]) and any(t["t"] == "SSTORE" for t in toks)))
+    cand = [b for b in out[nw + ngiven:] if sweepable(b)]
+    rng.shuffle(cand)
+    nsweep = 0
+    for b in out[nw:nw + ngiven] + cand[:(90 if quick else 1200)]:
+        b["sweep"] = 3
+        nsweep += 1
+    ctx.note("programs: %d witnesses, %d hand-written, %d of %d bounded-exhaustive (tiny library), %d simulated; %d distinct; "
+             "%d with gas sweeps" % (nw, ngiven, n1 - nw, len(g1), len(behs) - n1 - ngiven, len(out), nsweep))
     return out
+
+
+def deposit_failure(line):
+    """A sweep run in which a creation's init code finished (its last instruction was not an error and not REVERT) but the
+    creation failed: the gas was enough for the init code and not for the code deposit."""
+    e = json.loads(line)
+    sw = e["sweep"]
+    return any(c["site"] == sw["site"] and c["op"] in ("CREATE", "CREATE2") and c["entered"] and not c["ok"] and not c["rev"]
+               and int(sw["init"]) <= int(sw["target"]) < int(sw["used"]) for c in e["calls"])
 
 
 def judge(ctx, behs, name="run"):
@@ -134,15 +230,25 @@ def judge(ctx, behs, name="run"):
     ctx.cov["distinct_nontrivial"] += sum(1 for b in behs if nontrivial(b))
     for a in info["aborts"]:
         ctx.report("C16/NoPanic/process_abort", vlib.save_behaviour_replay(ctx, "C16/NoPanic/process_abort", bpath, a["b"], {}), a)
-    # the monitor reads the whole file: judge it in chunks
+    # the monitor reads the whole file: judge it in chunks (cut at behaviour boundaries)
     lines = open(trace).read().splitlines()
-    per = 4000          # lines (2 per program)
-    for part, start in enumerate(range(0, len(lines), per)):
+    sweeps = sum(1 for ln in lines if '"sweep":{' in ln)
+    window = sum(1 for ln in lines if '"sweep":{' in ln and deposit_failure(ln))
+    ctx.cov["gas_sweep_runs"] = ctx.cov.get("gas_sweep_runs", 0) + sweeps
+    ctx.cov["gas_sweep_runs_failing_at_code_deposit"] = ctx.cov.get("gas_sweep_runs_failing_at_code_deposit", 0) + window
+    ctx.cov["evaluations"] += sweeps
+    per = 4000
+    start, part = 0, 0
+    while start < len(lines):
+        end = min(start + per, len(lines))
+        while end < len(lines) and '"ev":"reset"' not in lines[end]:
+            end += 1
         tp = ctx.path("trace_%s_%d.ndjson" % (name, part))
         with open(tp, "w") as fh:
-            fh.write("\n".join(lines[start:start + per]) + "\n")
+            fh.write("\n".join(lines[start:end]) + "\n")
         vlib.monitor(ctx, "EvmFrames_Mon", MON_CFG, tp, name="Mon_%s_%d" % (name, part), behaviours=bpath,
                      replay_meta={"driver": "evmframes"}, timeout=1800)
+        start, part = end, part + 1
     return trace
 
 
@@ -182,7 +288,10 @@ def run(ctx):
                         "gas limit 2^63, gas price 0; 'all' calls forward 63/64 (CREATE: everything, as coded), 'one' calls forward 1 gas",
                         "programs in which a frame's gas would be cut to 1/64 more than 5 times are not generated (GasAmple)",
                         "created accounts are named by creation site; nonces are not compared (the statement does not mention them)",
-                        "the tracer reads the StateDB through getters at every call site (reads are not journalled)"]
+                        "the tracer reads the StateDB through getters at every call site (reads are not journalled)",
+                        "gas sweeps: a re-run is compared with the model's (ample gas) prediction only when every site ended as "
+                        "predicted; otherwise the per-frame clauses (all-or-nothing, gas returned <= supplied, an error frame returns no "
+                        "gas, value conserved, static) judge it"]
     behs = generate(ctx)
     for b in (behs[0], behs[len(behs) // 2], behs[-1]):
         ctx.sample({"prog": b["prog"], "setup": b["setup"]})
@@ -191,7 +300,9 @@ def run(ctx):
         selftest(ctx, trace)
     fired = ctx.cov.get("clauses_fired", {})
     never = sorted(c for c in ("NoPanic", "WorldEqualsModel", "FailedFrameLeavesNoTrace", "StaticChangesNothing", "ValueConserved",
-                               "GasReturnedLeqSupplied") if not fired.get(c))
+                               "GasReturnedLeqSupplied", "ErrorFrameReturnsNoGas") if not fired.get(c))
+    if not ctx.cov.get("gas_sweep_runs_failing_at_code_deposit"):
+        never.append("gas sweep: no run failed in the code-deposit window")
     if never:
         raise vlib.Undecided("vacuous clauses (never evaluated): %s" % never)
 
